@@ -81,10 +81,13 @@ def finddelayC (fftc ifft : Array (Cx α) → Array (Cx α)) (x1 x2 : Array (Cx 
 
 /-! ## `gccphat` -/
 
-/-- `R = ifft(Y / abs(Y))`, `Y = fft(sig) * conj(fft(refsig))` (element-wise; `0/0 = NaN` at a zero bin, as in the code) -/
+/-- `eps()` of `lib/types.cpp`: `2^-52` (exact at `Float`) -/
+def eps : α := Fn.ofNat 1 / Fn.ofNat 4503599627370496
+
+/-- `R = ifft(Y / (abs(Y) + eps()))`, `Y = fft(sig) * conj(fft(refsig))` (element-wise; a bin without energy gets weight 0) -/
 def gccCorr (fftr : Array α → Array (Cx α)) (ifft : Array (Cx α) → Array (Cx α)) (sig ref : Array α) : Array (Cx α) :=
   let Y := mulv czero (fftr sig) ((fftr ref).map Cx.conj)
-  ifft (Y.map fun y => Cx.divr y (cabs y))
+  ifft (Y.map fun y => Cx.divr y (cabs y + eps))
 
 /-- the delay computed from `R`: `n = argmax(R); peak = peakloc(R, n); (peak < M/2 ? peak : peak - M) * ts` -/
 def gccTau (R : Array (Cx α)) (fs : Int) : α :=
@@ -125,9 +128,6 @@ def CDelay.extract {γ : Type} (zero : γ) (d : CDelay γ) : Array γ :=
   Array.ofFn (n := d.buf.size) fun i => d.buf.getD ((d.idx + i.val) % d.buf.size) zero
 
 /-! ## `PreambleDetectorImpl` -/
-
-/-- `eps()` of `lib/types.cpp`: `2^-52` (exact at `Float`) -/
-def eps : α := Fn.ofNat 1 / Fn.ofNat 4503599627370496
 
 /-- `_is_valid`: `!(isinf(v) || isnan(v))`, observed through `v - v` (`NaN` for `±inf` and `NaN`, which compares false both ways;
 always true over `ℝ`) -/
